@@ -26,16 +26,7 @@ theorem mem_keysOf {f : Prim → Bool} {l : List Prim} {τ : Nat} (h : τ ∈ ke
   exact ⟨p, hp1, hp2, rfl⟩
 
 theorem popPick_ok' {common : List Nat} {τ : Nat} {tp tp' : Tape} (h : popPick common tp = .ok (τ, tp')) :
-    τ ∈ common := by
-  unfold popPick at h
-  split at h
-  · simp at h
-  · split at h
-    · simp at h
-    · split at h
-      · rename_i hc; simp at h; obtain ⟨rfl, _⟩ := h; simpa using hc.2
-      · simp at h
-    · simp at h
+    τ ∈ common := popChoice_mem h
 
 /-- candidates of the chosen common type exist in both parents -/
 theorem cands_ne_nil {f1 f2 : Prim → Bool} {l1 l2 : List Prim} {τ : Nat} (h : τ ∈ commonTypes f1 f2 l1 l2) :
